@@ -298,6 +298,90 @@ mutate "(k7) harmless: LinkedHashMap.Put with an early return and a renamed loca
 	m.ordering.Append(key)
 	m.table[key] = value'
 
+TS=sets/treeset/treeset.go
+TM=maps/treemap/treemap.go
+mutate "(t1) treeset.New installs a hand-written compare instead of cmp.Compare" $TS \
+'	return NewWith[T](cmp.Compare[T], values...)
+}' '	return NewWith[T](compare[T], values...)
+}
+
+func compare[T cmp.Ordered](a, b T) int {
+	if a < b {
+		return -1
+	}
+	if a > b {
+		return 1
+	}
+	return 0
+}'
+
+mutate "(t2) treeset.New passes another library comparator" $TS \
+'	return NewWith[T](cmp.Compare[T], values...)' '	return NewWith[T](utils.Compare[T], values...)'
+
+mutate "(t3) treemap.New builds the tree with a hand-written compare" $TM \
+'	return &Map[K, V]{tree: rbt.New[K, V]()}' '	return &Map[K, V]{tree: rbt.NewWith[K, V](func(a, b K) int { return cmp.Compare(a, b) })}'
+
+mutate "(t4) TreeSet.Union returns a shallow copy when the argument is empty" $TS \
+'func (set *Set[T]) Union(another *Set[T]) *Set[T] {
+	result := NewWith(set.tree.Comparator)
+' 'func (set *Set[T]) Union(another *Set[T]) *Set[T] {
+	if another.Size() == 0 {
+		tree := *set.tree
+		return &Set[T]{tree: &tree}
+	}
+	result := NewWith(set.tree.Comparator)
+'
+
+mutate "(t5) TreeSet caches the comparator in a new field" $TS \
+'type Set[T comparable] struct {
+	tree *rbt.Tree[T, struct{}]
+}' 'type Set[T comparable] struct {
+	tree       *rbt.Tree[T, struct{}]
+	comparator utils.Comparator[T]
+}'
+
+mutate "(t6) TreeSet.Difference keeps the common elements" $TS \
+'		if !another.Contains(it.Value()) {' '		if another.Contains(it.Value()) {'
+
+mutate "(t7) TreeMap.Floor returns the ceiling" $TM \
+'	node, found := m.tree.Floor(key)' '	node, found := m.tree.Ceiling(key)'
+
+mutate "(t8) harmless: TreeSet.Size via Keys; TreeMap.Min with a positive test" $TM \
+'	if node := m.tree.Left(); node != nil {
+		return node.Key, node.Value, true
+	}
+	return key, value, false' '	node := m.tree.Left()
+	if node == nil {
+		return key, value, false
+	}
+	return node.Key, node.Value, true'
+
+HB=maps/hashbidimap/hashbidimap.go
+TB=maps/treebidimap/treebidimap.go
+mutate "(b1) HashBidiMap.Put forgets to drop the old inverse entry" $HB \
+'	if valueByKey, ok := m.forwardMap.Get(key); ok {
+		m.inverseMap.Remove(valueByKey)
+	}
+' ''
+
+mutate "(b2) TreeBidiMap.Remove leaves the inverse entry" $TB \
+'		m.forwardMap.Remove(key)
+		m.inverseMap.Remove(v)' '		m.forwardMap.Remove(key)'
+
+mutate "(b3) treebidimap.New installs a hand-written compare" $TB \
+'		forwardMap: *redblacktree.New[K, V](),' '		forwardMap: *redblacktree.NewWith[K, V](func(a, b K) int { return cmp.Compare(a, b) }),'
+
+mutate "(b4) harmless: HashBidiMap.Remove with an early return" $HB \
+'	if value, found := m.forwardMap.Get(key); found {
+		m.forwardMap.Remove(key)
+		m.inverseMap.Remove(value)
+	}' '	value, found := m.forwardMap.Get(key)
+	if !found {
+		return
+	}
+	m.forwardMap.Remove(key)
+	m.inverseMap.Remove(value)'
+
 mutate "(h) Dequeue forgets to wrap start" $CB \
 '	if queue.start >= queue.maxSize {
 		queue.start = 0
